@@ -237,9 +237,16 @@ fn select_last_bank(core: &mut Core, ctl: Ctl, banks: usize) {
 }
 
 /// SM83 program with the same effect as `select_last_bank` + read of 0x7FFF, then a loop.
+/// two bytes the program sends over the serial port before anything else: a file that is
+/// accepted and runs shows them on standard output, whatever the loader prints around them
+const RUN_MARK: [u8; 2] = [0x1B, 0x9D];
+
 fn touch_prog(ctl: Ctl, banks: usize) -> Vec<u8> {
   let want = banks - 1;
   let mut p: Vec<u8> = Vec::new();
+  for m in RUN_MARK.iter() {
+    p.extend_from_slice(&[0x3E, *m, 0xE0, 0x01, 0x3E, 0x81, 0xE0, 0x02]);
+  }
   match ctl {
     Ctl::Mbc1 if want <= 127 => p.extend_from_slice(&[0x3E, (want & 0x1f) as u8, 0xEA, 0x00, 0x21, 0x3E, (want >> 5) as u8, 0xEA, 0x00, 0x40]),
     Ctl::Mbc3 if want <= 127 => p.extend_from_slice(&[0x3E, want as u8, 0xEA, 0x00, 0x21]),
@@ -497,11 +504,18 @@ fn run_binary(bin: &str, rom: &str, scratch: &str, grace: Duration) -> BinRun {
       },
     }
     if decided_at.is_none() {
-      let text = std::fs::read(&outp).map(|b| String::from_utf8_lossy(&b).to_string()).unwrap_or_default();
-      if text.contains("Loading \"") {
+      let raw = std::fs::read(&outp).unwrap_or_default();
+      let text = String::from_utf8_lossy(&raw).to_string();
+      if raw.windows(2).any(|w| w == RUN_MARK) {
+        // the file's own program is running (decided by behaviour, not by the loader's wording)
         decided_at = Some(Instant::now());
       } else if text.contains("No ROM, loading fallback") {
         // rejected: the built-in fallback program runs, the file plays no further part
+        decided_at = Some(Instant::now());
+        grace = Duration::from_millis(0);
+      } else if t0.elapsed() > Duration::from_millis(2500) {
+        // alive, silent about it in words we know, and the program's mark has not appeared:
+        // the file was not run (a loader that words its refusal differently ends up here)
         decided_at = Some(Instant::now());
         grace = Duration::from_millis(0);
       }
@@ -520,7 +534,9 @@ fn run_binary(bin: &str, rom: &str, scratch: &str, grace: Duration) -> BinRun {
     }
     std::thread::sleep(Duration::from_millis(2));
   }
-  let stdout = std::fs::read(&outp).map(|b| String::from_utf8_lossy(&b).to_string()).unwrap_or_default();
+  let raw_out = std::fs::read(&outp).unwrap_or_default();
+  let ran = raw_out.windows(2).any(|w| w == RUN_MARK);
+  let stdout = String::from_utf8_lossy(&raw_out).to_string();
   let stderr = std::fs::read(&errp).map(|b| String::from_utf8_lossy(&b).to_string()).unwrap_or_default();
   rm(&outp);
   rm(&errp);
@@ -534,7 +550,7 @@ fn run_binary(bin: &str, rom: &str, scratch: &str, grace: Duration) -> BinRun {
     }
   } else if killed_silent {
     "machinery:no-decision-line-in-20s".to_string()
-  } else if stdout.contains("Loading \"") {
+  } else if ran {
     "running".to_string()
   } else {
     // fallback core is running: the file was rejected; was there a message before it?
